@@ -8,6 +8,8 @@ import sys
 sys.path.insert(0, os.path.dirname(os.path.abspath(__file__)))
 import framework as fw
 
+sys.setrecursionlimit(200000)
+
 
 def replay_file(path, seed, no_build):
     """Re-run a recorded counterexample against the real build (unpatched
